@@ -87,7 +87,12 @@ func encodeWithHTTPCode(_ context.Context, err error) (string, []string, proto.M
 func decodeWithHTTPCode(
 	_ context.Context, cause error, _ string, _ []string, payload proto.Message,
 ) error {
-	wp := payload.(*EncodedHTTPCode)
+	wp, ok := payload.(*EncodedHTTPCode)
+	if !ok {
+		// If this ever happens, the payload is missing or of another
+		// type. Give up and let DecodeError use the opaque type.
+		return nil
+	}
 	return &withHTTPCode{cause: cause, code: int(wp.Code)}
 }
 
